@@ -6,6 +6,10 @@ ALL = ["C%02d" % i for i in range(1, 21)]
 
 # id -> (technique, level text, level note, design ref)
 CLAIMED = {
+ "C02": ("property-based testing (rapid): sandwich oracle (structural recogniser below, encoding/json.Valid above) over grammar-generated, mutated and raw inputs across 37 consuming entry points",
+         "Generated valid documents, their structural mutants, a string-geometry sweep aimed at SIMD block edges and raw bytes are offered to every JSON-consuming entry point; anything the harness's structural recogniser rejects must be rejected, anything encoding/json.Valid accepts must be accepted by type-agnostic entry points, raw captures must be structural, decoder.Skip must delimit the first value. Exploration.",
+         "Trusted: harness/ref.Structural and encoding/json.Valid. Two known findings (AST entry points ignore trailing bytes; native scanner accepts unterminated strings whose length is a multiple of 32) are classified and excluded.",
+         "DESIGN.md §7 C02"),
  "C01": ("property-based testing (rapid): differential vs encoding/json over generated destination types (reflect-built, fresh per case) and type-directed / mutated documents",
          "Every case pairs a freshly generated destination type (new decoder program) with a document aimed at that type's binding rules and compares sonic with encoding/json: same accept/reject, deep-equal decoded value, structural malformation always rejected; the one tolerated leniency (skipped values checked for structure only) is decided by re-running the oracle on a sanitised document. Exploration over the generated distribution; listed known findings are classified narrowly and excluded so that the search continues behind them.",
          "Trusted: encoding/json go1.23.5, harness/ref (Structural, Sanitise, tokeniser). 14 known findings with classifiers in props/c01.go; any other difference is a violation.",
